@@ -372,7 +372,7 @@ class RankedToPositionalVotes:
             )
             for rank, positioned in enumerate(ranked):
                 score = this_rank_scores[rank] * n_votes
-                if hasattr(positioned, '__len__'):
+                if isinstance(positioned, collections.abc.Set):
                     for cand in positioned:
                         agg_votes[cand] += score
                 else:
